@@ -509,7 +509,16 @@ func (lh *LightHouse) QueryServer(vpnAddr netip.Addr) {
 		return
 	}
 
-	lh.queryChan <- vpnAddr
+	if lh.ctx == nil {
+		lh.queryChan <- vpnAddr
+		return
+	}
+
+	select {
+	case lh.queryChan <- vpnAddr:
+	case <-lh.ctx.Done():
+		// The query workers are gone, do not park the caller on a full channel during shutdown
+	}
 }
 
 func (lh *LightHouse) QueryCache(vpnAddrs []netip.Addr) *RemoteList {
